@@ -354,10 +354,10 @@ Fixpoint bk_get (k : bytes) (bk : bucket) : option bytes :=
   end.
 Definition bk_keys (bk : bucket) : list bytes := map fst bk.
 
-(** the requests of a commit: the mutating ones (numbered by the fault oracle) and the GETs by
-    which write_new_version reads what it is about to replace (s3.rs:591-602; logged, not
-    numbered: C16 quantifies over failing PUT / multipart / DELETE requests).  Listings are
-    neither logged nor numbered. *)
+(** the requests of a commit: the mutating ones (numbered by the fault oracle [fa]) and the GETs by
+    which write_new_version reads what it is about to replace (s3.rs:589-599; logged, numbered by
+    the separate read oracle [fr] together with the find_files listing of an upgrade).  Listings
+    are not logged. *)
 Inductive req :=
 | RPut (k : bytes)
 | RDelete (k : bytes)
@@ -381,11 +381,19 @@ Definition mreq (fa : option N) (r : req) (eff : bucket -> bucket) (s : st) : re
 
 Definition same (bk : bucket) : bucket := bk.
 
-(** S3Client::get_object, s3.rs:942-969: [None] for NoSuchKey.  A read: logged, not numbered,
-    never failed by the oracle. *)
-Definition get_object (cprefix path : bytes) (s : st) : option bytes * st :=
+(** the read oracle: [fr = Some j] = the j-th read of the version commit (the GETs and the
+    find_files listing between the emptiness test and the upload, numbered from 0 in program
+    order) fails; C16 proper quantifies over the mutating requests ([fa]), the reads are added
+    because /repo commit 862b96a makes them harmless: they all precede the first write *)
+Definition read_fails (fr : option N) (rn : N) : bool :=
+  match fr with Some j => j =? rn | None => false end.
+
+(** S3Client::get_object, s3.rs:942-969: [Ok None] for NoSuchKey, [Err] when the request fails.
+    A read: logged, not numbered by [fa]; [rn] is its number for the read oracle. *)
+Definition get_object (fr : option N) (rn : N) (cprefix path : bytes) (s : st) : res (option bytes) * st :=
   let key := join cprefix path in
-  (bk_get key (st_b s), mkSt (st_b s) (st_n s) (st_log s ++ [RGet key])).
+  let s' := mkSt (st_b s) (st_n s) (st_log s ++ [RGet key]) in
+  if read_fails fr rn then (Err, s') else (Ok (bk_get key (st_b s)), s').
 
 (** number of upload_part requests: reads of PART_SIZE bytes until end of file, s3.rs:1091-1150 *)
 Definition n_parts (len : N) : N := (len + K_S3_PART_SIZE - 1) / K_S3_PART_SIZE.
@@ -529,15 +537,23 @@ Fixpoint delete_each (fa : option N) (cprefix : bytes) (paths : list bytes) (s :
               end
   end.
 
-(** s3.rs:599-602: the old declaration files are read, in listing order *)
-Fixpoint get_each (cprefix : bytes) (paths : list bytes) (s : st) : list (bytes * option bytes) * st :=
+(** s3.rs:597-600: the old declaration files are read, in listing order; the first failure ends it *)
+Fixpoint get_each (fr : option N) (rn : N) (cprefix : bytes) (paths : list bytes) (s : st)
+  : res (list (bytes * option bytes)) * st :=
   match paths with
-  | [] => ([], s)
-  | p :: r => let (c, s1) := get_object cprefix p s in
-              let (l, s2) := get_each cprefix r s1 in ((p, c) :: l, s2)
+  | [] => (Ok [], s)
+  | p :: r =>
+      match get_object fr rn cprefix p s with
+      | (Ok c, s1) =>
+          match get_each fr (rn + 1) cprefix r s1 with
+          | (Ok l, s2) => (Ok ((p, c) :: l), s2)
+          | (_, s2) => (Err, s2)
+          end
+      | (_, s1) => (Err, s1)
+      end
   end.
 
-(** the path of the new declaration, s3.rs:603-606 *)
+(** the path of the new declaration, s3.rs:601-604 *)
 Definition new_namaste (root : bytes) (up : option (bytes * bytes)) : option bytes :=
   match up with Some (name, _) => Some (join root name) | None => None end.
 Definition is_path (p : bytes) (o : option bytes) : bool :=
@@ -593,37 +609,50 @@ Definition undo_install (fa : option N) (cprefix : bytes) (i : nv_input) (olds :
   let s4 := restore_object fa cprefix (join (nv_root i) (nv_old_sidecar i)) prev_sc s3 in
   rollback fa cprefix uploaded s4.
 
-(** write_new_version after the upload, s3.rs:582-664: the reads of what will be replaced
-    (s3.rs:591-602), the install, and its undoing when it fails.  A failed listing of find_files
-    (s3.rs:595) returns before anything is replaced. *)
-Definition finish_version (fa : option N) (cprefix : bytes) (i : nv_input) (uploaded : list bytes) (s1 : st)
+(** write_new_version once what will be replaced has been read, s3.rs:606-664 (upload at s3.rs:606): the upload of the
+    version directory (its own inventory and sidecar last; a failure deletes what was uploaded
+    and returns, nothing has been replaced yet), the install, and its undoing when it fails *)
+Definition commit_version (fa : option N) (cprefix : bytes) (i : nv_input) (olds : list bytes)
+           (prev_namastes : list (bytes * option bytes)) (prev_inv prev_sc : option bytes) (s4 : st)
   : res unit * st :=
-  let (prev_inv, s2) := get_object cprefix (join (nv_root i) K_INVENTORY_FILE) s1 in
-  let (prev_sc, s3) := get_object cprefix (join (nv_root i) (nv_old_sidecar i)) s2 in
-  match (match nv_upgrade i with
-         | Some _ => find_files (bk_keys (st_b s3)) cprefix (nv_root i) K_OBJECT_NAMASTE_FILE_PREFIX
-         | None => Ok []
-         end) with
-  | Ok olds =>
-      let (prev_namastes, s4) := get_each cprefix olds s3 in
-      match install_version fa cprefix i olds s4 with
-      | (Ok _, s5) => (Ok tt, s5)
-      | (_, s5) => (Err, undo_install fa cprefix i olds prev_namastes prev_inv prev_sc uploaded s5)
+  match upload_all fa cprefix (join (nv_root i) (nv_vstr i)) (nv_files i) s4 with
+  | (Ok uploaded, s5) =>
+      match install_version fa cprefix i olds s5 with
+      | (Ok _, s6) => (Ok tt, s6)
+      | (_, s6) => (Err, undo_install fa cprefix i olds prev_namastes prev_inv prev_sc uploaded s6)
       end
-  | Err => (Err, s3)
-  | Panic => (Panic, s3)
+  | (_, s5) => (Err, s5)
   end.
 
-(** write_new_version, s3.rs:547-665, from the emptiness test of the version prefix on (the
-    head comparison before it reads only): upload of the version directory (its own inventory
-    and sidecar last), then [finish_version] *)
-Definition write_new_version (fa : option N) (cprefix : bytes) (i : nv_input) (s : st) : res unit * st :=
+(** write_new_version, s3.rs:547-665 (/repo commits 9053efb, 862b96a), from the emptiness test of
+    the version prefix on (the head comparison before it reads only): the reads of what will be
+    replaced (s3.rs:589-599: root inventory = read 0, root sidecar = read 1, on an upgrade the
+    find_files listing = read 2 and the old declarations = reads 3...), all BEFORE anything is
+    written: a failing read returns with nothing left behind; then [commit_version] *)
+Definition write_new_version (fa fr : option N) (cprefix : bytes) (i : nv_input) (s : st) : res unit * st :=
   let vdst := join (nv_root i) (nv_vstr i) in
   match listing_empty (list_all (bk_keys (st_b s)) cprefix vdst true) with
   | Ok true =>
-      match upload_all fa cprefix vdst (nv_files i) s with
-      | (Ok uploaded, s1) => finish_version fa cprefix i uploaded s1
-      | (_, s1) => (Err, s1)
+      match get_object fr 0 cprefix (join (nv_root i) K_INVENTORY_FILE) s with
+      | (Ok prev_inv, s2) =>
+          match get_object fr 1 cprefix (join (nv_root i) (nv_old_sidecar i)) s2 with
+          | (Ok prev_sc, s3) =>
+              match (match nv_upgrade i with
+                     | Some _ => if read_fails fr 2 then Err
+                                 else find_files (bk_keys (st_b s3)) cprefix (nv_root i) K_OBJECT_NAMASTE_FILE_PREFIX
+                     | None => Ok []
+                     end) with
+              | Ok olds =>
+                  match get_each fr 3 cprefix olds s3 with
+                  | (Ok prev_namastes, s4) => commit_version fa cprefix i olds prev_namastes prev_inv prev_sc s4
+                  | (_, s4) => (Err, s4)
+                  end
+              | Err => (Err, s3)
+              | Panic => (Panic, s3)
+              end
+          | (_, s3) => (Err, s3)
+          end
+      | (_, s2) => (Err, s2)
       end
   | Ok false => (Err, s)
   | Err => (Err, s)
